@@ -390,9 +390,67 @@ EXPRESSION_CORPUS = [
     "a(i)+b(i)", "a(i)  *  b(j)", " a( i , j ) ", "a ()", "a()", "A1(i1,j2)", "2", "007", "2.5", "1e5", "1E-3", "2.5e+10", "0.0", "10 * a(i)",
     "2 * 3 + 4", "2 + 3 * 4", "1 - 2 - 3", "2 * a(i) - 3.5 * b(i,j) * c(j)",
     # not in the language
-    "", " ", "a(i) +", "+ a(i)", "- a(i)", "a(i) b(i)", "a(i,)", "a(,i)", "(a(i)", "a(i))", "a(i) * - 2", "a_b(i)", "1a(i)", "a(i) ** b(i)",
+    "", " ", "a(i) +", "a(i) b(i)", "a(i,)", "a(,i)", "(a(i)", "a(i))", "a_b(i)", "1a(i)", "a(i) ** b(i)",
     "a(i) / b(i)", "1.", ".5", "1.e5", "a", "a(i", "a(1)", "a(i)(j)", "2 3", "()", "a(i) + ()", "a(i) = b(i)",
 ]
+# Sentences of conventional arithmetic that the grammar need not accept (signs).  If it does accept one, the tree
+# must MEAN what arithmetic says: compared as polynomials over the tensor references, with Python's own reading of
+# the text as the reference (unary minus binds tighter than binary + and -).
+OPTIONAL_CORPUS = [
+    "- a(i)", "-a(i) + b(i)", "-a(i) - b(i)", "a(i) * -b(i) + c(i)", "a(i) * - 2", "-2 + a()", "-(a(i) + b(i)) + c(i)", "a(i) - -b(i)",
+    "+ a(i)", "+a(i) - b(i)", "-a(i) * b(i) + c(i)", "2 * -a(i) * 3 - b(i)",
+]
+
+
+def meaning_of_tree(t):
+    from .symint import Poly
+
+    k = t[0]
+    if k == "Tensor":
+        return Poly.atom(f"{t[1]}[{','.join(t[2])}]")
+    if k == "Integer":
+        return Poly.const(int(t[1]))
+    if k == "Float":
+        if float(t[1]) != int(float(t[1])):
+            raise ValueError("non-integral literal")
+        return Poly.const(int(float(t[1])))
+    if k in ("Add", "Subtract", "Multiply"):
+        a, b = meaning_of_tree(t[1]), meaning_of_tree(t[2])
+        return a + b if k == "Add" else a - b if k == "Subtract" else a * b
+    if k == "Assignment":
+        return meaning_of_tree(t[2])
+    raise ValueError(f"unknown node {k}")
+
+
+def meaning_of_text(text):
+    """Python's reading of the arithmetic text (tensor references become atoms)."""
+    from .symint import Poly
+
+    atoms = {}
+
+    def ref(m):
+        key = f"T{len(atoms)}"
+        atoms[key] = f"{m.group(1)}[{','.join(x.strip() for x in m.group(2).split(',') if x.strip())}]"
+        return key
+
+    py = re.sub(r"([A-Za-z][A-Za-z0-9]*)\s*\(([A-Za-z0-9, ]*)\)", ref, text)
+    tree = ast.parse(py.strip(), mode="eval").body
+
+    def ev(n):
+        if isinstance(n, ast.BinOp) and isinstance(n.op, (ast.Add, ast.Sub, ast.Mult)):
+            a, b = ev(n.left), ev(n.right)
+            return a + b if isinstance(n.op, ast.Add) else a - b if isinstance(n.op, ast.Sub) else a * b
+        if isinstance(n, ast.UnaryOp) and isinstance(n.op, (ast.USub, ast.UAdd)):
+            return -ev(n.operand) if isinstance(n.op, ast.USub) else ev(n.operand)
+        if isinstance(n, ast.Constant) and isinstance(n.value, int):
+            return Poly.const(n.value)
+        if isinstance(n, ast.Name) and n.id in atoms:
+            return Poly.atom(atoms[n.id])
+        raise ValueError(ast.dump(n))
+
+    return ev(tree)
+
+
 ASSIGNMENT_CORPUS = [
     "y(i) = A(i,j) * x(j)", "y() = 2", "y(i)=a(i)", "  y(i)  =  a(i) + 1  ", "y(i,j) = a(i) * b(j) - c(i,j)", "y(i) = (a(i))",
     "y = 2", "y(i) = ", "= a(i)", "y(i) == a(i)", "y(i) = a(i) = b(i)", "y(i)", "2 = a(i)", "(y(i)) = a(i)", "y(i) + z(i) = a(i)",
@@ -1185,6 +1243,33 @@ def rule_grammar_semantics(ctx, ix, printed, printed_formats):
                 bad.setdefault("accepts text outside the language", f"`{text}` -> {got[1]}")
             else:
                 bad.setdefault("rejects text of the language", f"`{text}` (fails at {got[1]})")
+        for text in OPTIONAL_CORPUS:
+            ctx.instance("C12.grammar-semantics")
+            try:
+                got = g.parse(start_e, text) if start_e else ("fail", 0)
+            except Uninterpretable as ex:
+                bad.setdefault(f"grammar not interpretable: {ex}"[:100], text)
+                continue
+            except RecursionError:
+                bad.setdefault("grammar interpretation does not terminate", text)
+                continue
+            if got[0] == "fail":
+                n_ok += 1  # signs are not part of the language: nothing to check
+            elif got[0] == "raise":
+                bad.setdefault(f"parsing raises {got[1]} instead of returning a tree or a typed failure", repr(text))
+            else:
+                try:
+                    same = meaning_of_tree(got[1]) == meaning_of_text(text)
+                except (ValueError, SyntaxError) as ex:
+                    bad.setdefault("accepted text whose meaning cannot be computed", f"`{text}` -> {got[1]} ({ex})")
+                    continue
+                if same:
+                    n_ok += 1
+                else:
+                    bad.setdefault(
+                        "accepted text does not mean what arithmetic says (a sign binds tighter than binary + and -)",
+                        f"`{text}` -> {got[1]}, i.e. {meaning_of_tree(got[1])!r}, arithmetic reads {meaning_of_text(text)!r}",
+                    )
         for why, ex in bad.items():
             ctx.fail("C12.grammar-semantics", f"expression/_parser.py:TensorExpressionParsers:{why}", f"{why}; e.g. {ex}")
         ctx.ok("C12.grammar-semantics", n=n_ok)
